@@ -29,7 +29,7 @@ EXTENDS DFTSem, Json, IOUtils
 
 VARIABLES l, heap, hist
 WL == INSTANCE WaveLayout
-DM == INSTANCE DFTMachine WITH MaxLen <- 0
+DM == INSTANCE DFTMachine WITH MaxLen <- 0, Efforts <- {}, Slim <- FALSE
 DD == INSTANCE DFTDerive WITH Bases <- {}, MaxLen <- 0, base <- 0, desc <- 0, path <- <<>>
 
 Trace == ndJsonDeserialize(IOEnv.TRACE_FILE)
